@@ -465,6 +465,12 @@ def run_master(case, choices):
                                     "the master handled %s at t=%.2f and exited %.2f s later (graceful_timeout=%s + 1.5 s slack); %s"
                                     % (case["sig"], t_sig, took, gt, ctx()))
                     booting = any(ft >= t_sig - 1.5 for ft, _pp, _cp, _k in w.forks)      # a worker still booting cannot obey QUIT yet
+                    if case["sig"] != "TERM" and fam == "full" and took > 1.5 + 1e-6 and not booting:
+                        # 'promptly, without waiting for requests': with real workers the wait can only come from a worker that does not
+                        # leave on QUIT while a request is in flight
+                        res.violate("C04:full:%s:quick-shutdown-waits-for-requests" % case["kind"],
+                                    "%s: the master took %.2f s to exit (graceful_timeout=%s): a %s worker with a request in flight does not leave "
+                                    "on QUIT, the master waits for it until it finishes or is killed; %s" % (case["sig"], took, gt, case["kind"], ctx()))
                     if case["sig"] != "TERM" and fam == "master" and took > 1.5 + 1e-6 and not booting and not any(
                             s.get("boot_delay") for s in scripts.values()):
                         res.violate("C04:%s:quick-shutdown-slow" % fam, "%s: the master took %.2f s to exit although workers obey QUIT at once; %s"
